@@ -671,7 +671,14 @@ impl<'a> Model<'a> {
                 }),
             },
             OpPowerKind { left, right } => {
-                self.handle_arithmetic(left, right, cell, &|f1, f2| Ok(f1.powf(f2)))
+                self.handle_arithmetic(left, right, cell, &|f1, f2| {
+                    // zero to a negative power is a division by zero (as in POWER)
+                    if f1 == 0.0 && f2 < 0.0 {
+                        Err(Error::DIV)
+                    } else {
+                        Ok(f1.powf(f2))
+                    }
+                })
             }
             FunctionKind { kind, args } => self.evaluate_function(kind, args, cell),
             NamedFunctionKind { name, args, id } => {
